@@ -122,6 +122,10 @@ def wfword_stream(ctx, float_texts, _fail):
             s = bytes(rng.choice(b"ab1.-+e_\"; \t\n=<>!?#{}[]\\\x00\x01\x0b\x0c\x7f\x80\xa0\xff@,:'%") for _ in range(n))
             if s[:1] == b"@":
                 s = b"x" + s
+            if len(s) == 1 and s[0] in D.BOUNDARY:
+                # split_at_scalar never returns an empty scalar (max(idx, 1)): ONE boundary byte on its own is read as a
+                # scalar by the real scanner (`a=! b=c`), which wf_word does not admit -- wf_word is sufficient, not necessary
+                s = b"x" + s
             texts.append((s, "adv"))
     cases = ["writer.wfword\t%s" % vlib.hexs(t) for t, _ in texts]
     impl, model = ctx.correspond("wfword", cases, nontrivial=lambda c, i: True)
